@@ -92,3 +92,47 @@ pub fn glob(pat: &str, s: &str) -> bool {
     }
     true
 }
+
+
+thread_local! {
+    /// start address (mod 8) of the byte slices handed to the std::io views; None = derived from the length
+    pub static IO_ALIGN: std::cell::Cell<Option<u8>> = const { std::cell::Cell::new(None) };
+}
+
+pub fn io_align() -> Option<u8> {
+    IO_ALIGN.with(|c| c.get())
+}
+
+pub fn set_io_align(a: Option<u8>) {
+    IO_ALIGN.with(|c| c.set(a));
+}
+
+/// A byte buffer whose first byte sits at a chosen address modulo 8 (the std::io views receive
+/// caller-owned slices, and an implementation may treat the aligned middle of a slice specially).
+pub struct AlignedBytes {
+    store: Vec<u64>,
+    off: usize,
+    len: usize,
+}
+
+impl AlignedBytes {
+    pub fn new(len: usize, fill: u8) -> Self {
+        let off = io_align().map(|a| a as usize % 8).unwrap_or((len * 3 + 1) % 8);
+        let store = vec![u64::from_ne_bytes([fill; 8]); (off + len).div_ceil(8) + 1];
+        AlignedBytes { store, off, len }
+    }
+    pub fn from(bytes: &[u8]) -> Self {
+        let mut a = Self::new(bytes.len(), 0);
+        a.as_mut_slice().copy_from_slice(bytes);
+        a
+    }
+    pub fn as_slice(&self) -> &[u8] {
+        let (_, b, _) = unsafe { self.store.align_to::<u8>() };
+        &b[self.off..self.off + self.len]
+    }
+    pub fn as_mut_slice(&mut self) -> &mut [u8] {
+        let (off, len) = (self.off, self.len);
+        let (_, b, _) = unsafe { self.store.align_to_mut::<u8>() };
+        &mut b[off..off + len]
+    }
+}
